@@ -313,7 +313,7 @@ def run(ctx):
     ver = gtirb.version.PROTOBUF_VERSION
     hdr = b"GTIRB\0\0" + bytes([ver])
     tie = ms.CheckedTie(ctx, "msg", "msg", flush_at=200)
-    n_files = ctx.scale(6, 60)
+    n_files = ctx.scale(6, 40)
     for fno in range(n_files):
         gen = irgen.Gen(gtirb, rng, rng.choice([0.4, 0.8]))
         if fno % 3 == 2:
